@@ -1,2 +1,13 @@
-"""Named classifiers for known findings: each recognises ONE defect by its failing observable at
-one call site (never by property id alone).  signature: fn(op, impl, model, args) -> bool"""
+"""Named classifiers for known findings.  Each recognises ONE defect by its failing observable at
+one call site (never by property id alone).  signature: fn(op, impl, model, args) -> bool.
+Definitions live in checks/classifiers/Cxx.py; this module re-exports them all."""
+import importlib.util, os
+_d = os.path.join(os.path.dirname(os.path.abspath(__file__)), "classifiers")
+for _f in sorted(os.listdir(_d)):
+    if _f.endswith(".py") and _f[0] == "C":
+        _spec = importlib.util.spec_from_file_location("cl_" + _f[:-3], os.path.join(_d, _f))
+        _m = importlib.util.module_from_spec(_spec)
+        _spec.loader.exec_module(_m)
+        for _k, _v in vars(_m).items():
+            if callable(_v) and not _k.startswith("_"):
+                globals()[_k] = _v
